@@ -81,6 +81,9 @@ class DealMonitor(Monitor):
             args = call[1]
             if len(args) >= 2 and args[1] is not None:
                 default_index = False
+                if type(op).__name__ == 'HoleDealing' and op.player_index != args[1]:
+                    raise Violation(self.prefix + '.dealee', f'deal_hole{tuple(args)} names player {args[1]} but {op!r} dealt to player '
+                                    f'{op.player_index}', rule='dealee')
         try:
             self.m.on(op, default_index)
         except DealError as e:
@@ -118,9 +121,16 @@ def run(ch, ctx):
     mon = DealMonitor()
     world = None
     try:
+        dealer = ch.choice('c10.dealer', ('engine', 'counted', 'explicit', 'explicit'))
+        if cfg['n'] == 2 and cfg['variant'] in ('N2L1D', 'F2L3D', 'FB', 'X5D', 'XA5') and ch.chance('c10.hidden_draw', 1, 2):
+            # heads-up draw game (the deck cannot run out): face-down cards dealt unknown, so that hands mix known and
+            # unknown cards and unknown cards are discarded; the showdown is manual and reveals real cards
+            dealer = 'hidden'
+            cfg["autos"] &= ~(1 << 7)          # HOLE_CARDS_SHOWING_OR_MUCKING off
+            ctx.count('hidden_draw_runs')
         world = World(ch, ctx, cfg, [mon], run_key=run_key_of(ch), runout_prefs=(None, 1, 2, 2, 3),
                       profile=ch.choice('c10.profile', ('passive', 'passive', 'balanced', 'folder')),
-                      dealer=ch.choice('c10.dealer', ('engine', 'counted', 'explicit', 'explicit')),
+                      dealer=dealer,
                       explicit_index_num=1, muck_num=0, partial_show=False)
         world.run()
     except (Violation, EngineCrash, Stuck):
